@@ -12,6 +12,8 @@
     copy <name4> <name4> ## <obs>
     delete <name4> ## <obs>
     prune ## <obs>
+    pull <name4> missing | <k> {<media code> <contenthex> <servedhex|=>}* C <cfgcontenthex> <servedhex|=> ## <obs>
+                                          (POST /api/pull from an in-memory registry; served = what it returns)
     plant <name4> <name4> ## <obs>        (not an API op: legacy / un-canonicalised manifest)
     corrupt <name4> ## <obs>              (not an API op: torn manifest)
     dashify <name4> ## <obs>              (not an API op: model-layer digests respelled sha256-<hex>)
@@ -122,7 +124,39 @@ def outcomes (env : Env) (st : Store) : Op → List (Store × List String)
     (resolveAll env st s).flatMap (fun s' =>
       (resolveAll env st d).map (fun d' => copyAt st s' d'))
   | .delete n => (resolveAll env st n).map (fun t => deleteAt env st t)
+  | .pull n reg served => (resolveAll env st n).map (fun t => pullAt env st t reg served)
   | op => [step env st op ⟨[], [], false⟩]
+
+def mediaOfCode : String → Option Media
+  | "M" => some .model | "J" => some .projector | "A" => some .adapter | "T" => some .template
+  | "S" => some .system | "P" => some .params | "L" => some .license | "G" => some .messages
+  | "C" => some .config | _ => none
+
+/-- one registry layer: media code, honest content, served bytes (`=` : the honest content) -/
+def pRegLayer : TP (Media × Bytes × Bytes) := do
+  let mc ← tok
+  let c ← hex
+  let sv ← tok
+  match mediaOfCode mc with
+  | none => failure
+  | some m =>
+    if sv == "=" then pure (m, c, c) else
+    match unhex sv with
+    | some b => pure (m, c, b)
+    | none => failure
+
+def pPull : TP Op := do
+  let n ← pName
+  let k ← tok
+  if k == "missing" then pure (.pull n none []) else
+  match k.toNat? with
+  | none => failure
+  | some cnt => do
+    let ls ← rep cnt pRegLayer
+    let cfg ← pRegLayer
+    let lay (x : Media × Bytes × Bytes) : Layer := ⟨x.1, ⟨.colon, sha x.2.1⟩, x.2.1.length⟩
+    let served := (ls ++ [cfg]).map (fun x => (sha x.2.1, x.2.2))
+    pure (.pull n (some ⟨lay cfg, ls.map lay⟩) served)
 
 def pOp : TP Op := do
   let k ← tok
@@ -142,6 +176,7 @@ def pOp : TP Op := do
     let n ← pName
     pure (.delete n)
   | "prune" => pure .prune
+  | "pull" => pPull
   | "plant" => do
     let s ← pName
     let d ← pName
